@@ -113,6 +113,10 @@ where
 /*@*/             ==> !(x == old_range.start && y == new_range.start) && !(x == old_range.end && y == new_range.end),
 /*@*/         dl_expired(deadline) ==> res is None,
 /*@*/         deadline is None ==> res is Some,
+/*@*/         // C03, Myers' theorem (assumed with the rest of this contract): the middle snake lies on an optimal path, so the split is optimal
+/*@*/         deadline is None ==> (res matches Some((x, y)) ==>
+/*@*/             lcs_len(old, old_range.start as int, old_range.end as int, new, new_range.start as int, new_range.end as int)
+/*@*/                 == lcs_len(old, old_range.start as int, x as int, new, new_range.start as int, y as int) + lcs_len(old, x as int, old_range.end as int, new, y as int, new_range.end as int)),
 {
     let n = old_range.len();
     let m = new_range.len();
@@ -240,10 +244,12 @@ where
 /*@*/     ensures
 /*@*/         err_post(*vstd::prelude::old(d), *final(d), res),
 /*@*/         (*final(d)).fobs() == (*vstd::prelude::old(d)).fobs(),
-/*@*/         seg_post(*vstd::prelude::old(d), *final(d), old, old_range, new, new_range, alg_lvl(deadline), false, Seq::<Ev>::empty(), res.is_ok()),
+/*@*/         (*final(d)).config() == (*vstd::prelude::old(d)).config(),
+/*@*/         seg_post(*vstd::prelude::old(d), *final(d), old, old_range, new, new_range, alg_lvl(deadline), deadline is None, Seq::<Ev>::empty(), res.is_ok()),
 /*@*/         final(vf).wf(), final(vf).offset == vstd::prelude::old(vf).offset, final(vb).wf(), final(vb).offset == vstd::prelude::old(vb).offset,
 /*@*/     decreases (old_range.end - old_range.start) + (new_range.end - new_range.start),
 {
+    /*@*/ hide(seg_eqs); hide(lcs_len);   // C03 bookkeeping goes through lemmas only (keeps the query small)
     /*@*/ broadcast use {axiom_pure_index, axiom_pure_eq};
     /*@*/ let ghost rel = rel_of(old, new); let ghost lvl = alg_lvl(deadline);
     /*@*/ let ghost o0 = old_range.start as int; let ghost n0 = new_range.start as int;
@@ -251,14 +257,17 @@ where
     /*@*/ let ghost d0 = *d; let ghost t0 = d.trace(); let ghost rs0 = d.rely_st(); let ghost r1 = d.rely_rel();
     /*@*/ let ghost mut s: Seq<Ev> = Seq::empty();
     /*@*/ let ghost mut oc: int = o0; let ghost mut nc: int = n0;
+    /*@*/ let ghost opt = deadline is None;      // C03: no deadline => the script is optimal
+    /*@*/ let ghost mut eqs: int = 0;            // number of items reported equal so far
     /*@*/ proof { lemma_seg_empty(rel, lvl, o0, n0); lemma_run_empty(r1, rs0); assert(t0 + s =~= t0); assert(alg_inv(*d, d0, t0, s, rel, lvl, rs0, o0, n0, oc, nc)); }
+    /*@*/ proof { assert(eqs == seg_eqs(rel, lvl, s, o0, n0, oc, nc)); }
     // Check for common prefix
     let common_prefix_len = common_prefix_len(old, old_range.clone(), new, new_range.clone());
     if common_prefix_len > 0 {
         /*@*/ proof { let e = Ev::Equal(old_range.start, new_range.start, common_prefix_len); if d0.relies() { pre_call(rel, r1, lvl, s, e, o0, n0, oc, nc, rs0); } }
         d.equal(old_range.start, new_range.start, common_prefix_len)?;
         /*@*/ proof { let e = Ev::Equal(old_range.start, new_range.start, common_prefix_len); post_call(rel, r1, lvl, s, e, o0, n0, oc, nc, rs0); assert((t0 + s).push(e) =~= t0 + s.push(e)); s = s.push(e); oc = oc + common_prefix_len; nc = nc + common_prefix_len;
-        /*@*/     assert(alg_inv(*d, d0, t0, s, rel, lvl, rs0, o0, n0, oc, nc)); }
+        /*@*/     assert(alg_inv(*d, d0, t0, s, rel, lvl, rs0, o0, n0, oc, nc)); eqs = eqs + ev_eqs(e); assert(eqs == seg_eqs(rel, lvl, s, o0, n0, oc, nc)); }
     }
     old_range.start += common_prefix_len;
     new_range.start += common_prefix_len;
@@ -278,12 +287,12 @@ where
         /*@*/ proof { let e = Ev::Delete(old_range.start, (old_range.end - old_range.start) as usize, new_range.start); if d0.relies() { pre_call(rel, r1, lvl, s, e, o0, n0, oc, nc, rs0); } }
         d.delete(old_range.start, old_range.len(), new_range.start)?;
         /*@*/ proof { let e = Ev::Delete(old_range.start, (old_range.end - old_range.start) as usize, new_range.start); post_call(rel, r1, lvl, s, e, o0, n0, oc, nc, rs0); assert((t0 + s).push(e) =~= t0 + s.push(e)); s = s.push(e); oc = oc + (old_range.end - old_range.start);
-        /*@*/     assert(alg_inv(*d, d0, t0, s, rel, lvl, rs0, o0, n0, oc, nc)); }
+        /*@*/     assert(alg_inv(*d, d0, t0, s, rel, lvl, rs0, o0, n0, oc, nc)); eqs = eqs + ev_eqs(e); assert(eqs == seg_eqs(rel, lvl, s, o0, n0, oc, nc)); }
     } else if is_empty_range(&old_range) {
         /*@*/ proof { let e = Ev::Insert(old_range.start, new_range.start, (new_range.end - new_range.start) as usize); if d0.relies() { pre_call(rel, r1, lvl, s, e, o0, n0, oc, nc, rs0); } }
         d.insert(old_range.start, new_range.start, new_range.len())?;
         /*@*/ proof { let e = Ev::Insert(old_range.start, new_range.start, (new_range.end - new_range.start) as usize); post_call(rel, r1, lvl, s, e, o0, n0, oc, nc, rs0); assert((t0 + s).push(e) =~= t0 + s.push(e)); s = s.push(e); nc = nc + (new_range.end - new_range.start);
-        /*@*/     assert(alg_inv(*d, d0, t0, s, rel, lvl, rs0, o0, n0, oc, nc)); }
+        /*@*/     assert(alg_inv(*d, d0, t0, s, rel, lvl, rs0, o0, n0, oc, nc)); eqs = eqs + ev_eqs(e); assert(eqs == seg_eqs(rel, lvl, s, o0, n0, oc, nc)); }
     } else if let Some((x_start, y_start)) = find_middle_snake(
         old,
         old_range.clone(),
@@ -300,24 +309,31 @@ where
         conquer(d, old, old_a, new, new_a, vf, vb, deadline)?;
         /*@*/ proof {
         /*@*/     let sa = choose|q: Seq<Ev>| #[trigger] seg(old, new, lvl, q, old_a.start as int, new_a.start as int, old_a.end as int, new_a.end as int)
-        /*@*/         && d.trace() == tm + q + Seq::<Ev>::empty() && (dm.relies() ==> d.rely_st() == run_rel(dm.rely_rel(), rm, q));
+        /*@*/         && d.trace() == tm + q + Seq::<Ev>::empty() && (dm.relies() ==> d.rely_st() == run_rel(dm.rely_rel(), rm, q))
+        /*@*/         && (opt ==> seg_eqs(rel, lvl, q, old_a.start as int, new_a.start as int, old_a.end as int, new_a.end as int)
+        /*@*/                 == lcs_len(old, old_a.start as int, old_a.end as int, new, new_a.start as int, new_a.end as int));
         /*@*/     lemma_seg_concat(rel, lvl, s, sa, o0, n0, oc, nc, old_a.end as int, new_a.end as int);
         /*@*/     lemma_run_concat(r1, rs0, s, sa);
         /*@*/     assert((t0 + s) + sa + Seq::<Ev>::empty() =~= t0 + (s + sa));
+        /*@*/     eqs = eqs + seg_eqs(rel, lvl, sa, oc, nc, old_a.end as int, new_a.end as int);
         /*@*/     s = s + sa; oc = old_a.end as int; nc = new_a.end as int;
-        /*@*/     assert(alg_inv(*d, d0, t0, s, rel, lvl, rs0, o0, n0, oc, nc));
+        /*@*/     assert(alg_inv(*d, d0, t0, s, rel, lvl, rs0, o0, n0, oc, nc)); assert(eqs == seg_eqs(rel, lvl, s, o0, n0, oc, nc));
         /*@*/ }
         /*@*/ let ghost tm = d.trace(); let ghost rm = d.rely_st(); let ghost dm = *d;
         /*@*/ proof { if d0.relies() { lemma_seg_any(rel, r1, lvl, s, o0, n0, oc, nc, rs0); lemma_mono(r1, rs0, s); } }
         conquer(d, old, old_b, new, new_b, vf, vb, deadline)?;
         /*@*/ proof {
         /*@*/     let sa = choose|q: Seq<Ev>| #[trigger] seg(old, new, lvl, q, old_b.start as int, new_b.start as int, old_b.end as int, new_b.end as int)
-        /*@*/         && d.trace() == tm + q + Seq::<Ev>::empty() && (dm.relies() ==> d.rely_st() == run_rel(dm.rely_rel(), rm, q));
+        /*@*/         && d.trace() == tm + q + Seq::<Ev>::empty() && (dm.relies() ==> d.rely_st() == run_rel(dm.rely_rel(), rm, q))
+        /*@*/         && (opt ==> seg_eqs(rel, lvl, q, old_b.start as int, new_b.start as int, old_b.end as int, new_b.end as int)
+        /*@*/                 == lcs_len(old, old_b.start as int, old_b.end as int, new, new_b.start as int, new_b.end as int));
         /*@*/     lemma_seg_concat(rel, lvl, s, sa, o0, n0, oc, nc, old_b.end as int, new_b.end as int);
         /*@*/     lemma_run_concat(r1, rs0, s, sa);
         /*@*/     assert((t0 + s) + sa + Seq::<Ev>::empty() =~= t0 + (s + sa));
+        /*@*/     eqs = eqs + seg_eqs(rel, lvl, sa, oc, nc, old_b.end as int, new_b.end as int);
         /*@*/     s = s + sa; oc = old_b.end as int; nc = new_b.end as int;
-        /*@*/     assert(alg_inv(*d, d0, t0, s, rel, lvl, rs0, o0, n0, oc, nc));
+        /*@*/     assert(alg_inv(*d, d0, t0, s, rel, lvl, rs0, o0, n0, oc, nc)); assert(eqs == seg_eqs(rel, lvl, s, o0, n0, oc, nc));
+        /*@*/     assert(opt ==> eqs == common_prefix_len + lcs_len(old, o0 + common_prefix_len, oe0 - common_suffix_len, new, n0 + common_prefix_len, ne0 - common_suffix_len));   // the split is optimal (find_middle_snake)
         /*@*/ }
     } else {
         /*@*/ proof { let e = Ev::Delete(old_range.start, (old_range.end - old_range.start) as usize, new_range.start); if d0.relies() { pre_call(rel, r1, lvl, s, e, o0, n0, oc, nc, rs0); } }
@@ -327,7 +343,7 @@ where
             new_range.start,
         )?;
         /*@*/ proof { let e = Ev::Delete(old_range.start, (old_range.end - old_range.start) as usize, new_range.start); post_call(rel, r1, lvl, s, e, o0, n0, oc, nc, rs0); assert((t0 + s).push(e) =~= t0 + s.push(e)); s = s.push(e); oc = oc + (old_range.end - old_range.start);
-        /*@*/     assert(alg_inv(*d, d0, t0, s, rel, lvl, rs0, o0, n0, oc, nc)); }
+        /*@*/     assert(alg_inv(*d, d0, t0, s, rel, lvl, rs0, o0, n0, oc, nc)); eqs = eqs + ev_eqs(e); assert(eqs == seg_eqs(rel, lvl, s, o0, n0, oc, nc)); }
         /*@*/ proof { let e = Ev::Insert(old_range.start, new_range.start, (new_range.end - new_range.start) as usize); if d0.relies() { pre_call(rel, r1, lvl, s, e, o0, n0, oc, nc, rs0); } }
         d.insert(
             old_range.start,
@@ -335,14 +351,18 @@ where
             new_range.end - new_range.start,
         )?;
         /*@*/ proof { let e = Ev::Insert(old_range.start, new_range.start, (new_range.end - new_range.start) as usize); post_call(rel, r1, lvl, s, e, o0, n0, oc, nc, rs0); assert((t0 + s).push(e) =~= t0 + s.push(e)); s = s.push(e); nc = nc + (new_range.end - new_range.start);
-        /*@*/     assert(alg_inv(*d, d0, t0, s, rel, lvl, rs0, o0, n0, oc, nc)); }
+        /*@*/     assert(alg_inv(*d, d0, t0, s, rel, lvl, rs0, o0, n0, oc, nc)); eqs = eqs + ev_eqs(e); assert(eqs == seg_eqs(rel, lvl, s, o0, n0, oc, nc)); }
     }
 
+    /*@*/ proof {   // the one-sided leaves report nothing equal and an empty side has lcs 0; the fallback needs a deadline
+    /*@*/     if opt && (o0 + common_prefix_len >= oe0 - common_suffix_len || n0 + common_prefix_len >= ne0 - common_suffix_len) { lemma_lcs_empty(old, o0 + common_prefix_len, oe0 - common_suffix_len, new, n0 + common_prefix_len, ne0 - common_suffix_len); }
+    /*@*/     assert(opt ==> eqs == common_prefix_len + lcs_len(old, o0 + common_prefix_len, oe0 - common_suffix_len, new, n0 + common_prefix_len, ne0 - common_suffix_len));
+    /*@*/ }
     if common_suffix_len > 0 {
         /*@*/ proof { let e = Ev::Equal(common_suffix.0, common_suffix.1, common_suffix_len); if d0.relies() { pre_call(rel, r1, lvl, s, e, o0, n0, oc, nc, rs0); } }
         d.equal(common_suffix.0, common_suffix.1, common_suffix_len)?;
         /*@*/ proof { let e = Ev::Equal(common_suffix.0, common_suffix.1, common_suffix_len); post_call(rel, r1, lvl, s, e, o0, n0, oc, nc, rs0); assert((t0 + s).push(e) =~= t0 + s.push(e)); s = s.push(e); oc = oc + common_suffix_len; nc = nc + common_suffix_len;
-        /*@*/     assert(alg_inv(*d, d0, t0, s, rel, lvl, rs0, o0, n0, oc, nc)); }
+        /*@*/     assert(alg_inv(*d, d0, t0, s, rel, lvl, rs0, o0, n0, oc, nc)); eqs = eqs + ev_eqs(e); assert(eqs == seg_eqs(rel, lvl, s, o0, n0, oc, nc)); }
     }
 
     /*@*/ proof {
@@ -350,6 +370,8 @@ where
     /*@*/     assert(oc == oe0 && nc == ne0);
     /*@*/     assert(t0 + s + Seq::<Ev>::empty() =~= t0 + s);
     /*@*/     assert(seg(old, new, lvl, s, o0, n0, oe0, ne0));
+    /*@*/     if opt { lemma_lcs_strip(old, o0, oe0, new, n0, ne0, common_prefix_len as int, common_suffix_len as int); }
+    /*@*/     assert(opt ==> eqs == lcs_len(old, o0, oe0, new, n0, ne0));
     /*@*/ }
     Ok(())
 }
@@ -373,7 +395,8 @@ where
 /*@*/     ensures
 /*@*/         err_post(*vstd::prelude::old(d), *final(d), res),
 /*@*/         (*final(d)).fobs() == (*vstd::prelude::old(d)).fobs(),
-/*@*/         seg_post(*vstd::prelude::old(d), *final(d), old, old_range, new, new_range, alg_lvl(deadline), false, fin::<D>(), res.is_ok()),
+/*@*/         (*final(d)).config() == (*vstd::prelude::old(d)).config(),
+/*@*/         seg_post(*vstd::prelude::old(d), *final(d), old, old_range, new, new_range, alg_lvl(deadline), deadline is None, fin::<D>(), res.is_ok()),
 {
     let max_d = max_d(old_range.len(), new_range.len());
     let mut vb = V::new(max_d);
@@ -385,7 +408,9 @@ where
     /*@*/     let lvl = alg_lvl(deadline);
     /*@*/     let d0 = *vstd::prelude::old(d);
     /*@*/     let sa = choose|q: Seq<Ev>| #[trigger] seg(old, new, lvl, q, old_range.start as int, new_range.start as int, old_range.end as int, new_range.end as int)
-    /*@*/         && d.trace() == d0.trace() + q + Seq::<Ev>::empty() && (d0.relies() ==> d.rely_st() == run_rel(d0.rely_rel(), d0.rely_st(), q));
+    /*@*/         && d.trace() == d0.trace() + q + Seq::<Ev>::empty() && (d0.relies() ==> d.rely_st() == run_rel(d0.rely_rel(), d0.rely_st(), q))
+    /*@*/         && (deadline is None ==> seg_eqs(rel_of(old, new), lvl, q, old_range.start as int, new_range.start as int, old_range.end as int, new_range.end as int)
+    /*@*/                 == lcs_len(old, old_range.start as int, old_range.end as int, new, new_range.start as int, new_range.end as int));
     /*@*/     if d0.relies() { lemma_seg_any(rel_of(old, new), d0.rely_rel(), lvl, sa, old_range.start as int, new_range.start as int, old_range.end as int, new_range.end as int, d0.rely_st()); }
     /*@*/     assert(d0.trace() + sa + Seq::<Ev>::empty() + fin::<D>() =~= d0.trace() + sa + fin::<D>());
     /*@*/     assert(sa + Seq::<Ev>::empty() =~= sa);
@@ -412,7 +437,8 @@ where
 /*@*/     ensures
 /*@*/         err_post(*vstd::prelude::old(d), *final(d), res),
 /*@*/         (*final(d)).fobs() == (*vstd::prelude::old(d)).fobs(),
-/*@*/         seg_post(*vstd::prelude::old(d), *final(d), old, old_range, new, new_range, alg_lvl(None), false, fin::<D>(), res.is_ok()),
+/*@*/         (*final(d)).config() == (*vstd::prelude::old(d)).config(),
+/*@*/         seg_post(*vstd::prelude::old(d), *final(d), old, old_range, new, new_range, alg_lvl(None), true, fin::<D>(), res.is_ok()),
 {
     diff_deadline(d, old, old_range, new, new_range, None)
 }
